@@ -77,6 +77,7 @@ def params_from_cmd(config: Params) -> None:
     with_nontrivial_restrictions = False
     use_vms_default = {vm_name: True for vm_name in available_vms}
     with_selected_vms = list(available_vms)
+    with_explicit_nets = False
 
     # the run string includes only pure parameters
     param_dict = {}
@@ -104,6 +105,11 @@ def params_from_cmd(config: Params) -> None:
             tests_str += "%s %s\n" % (key, value)
         elif key.startswith("only_") or key.startswith("no_"):
             if re.match("(only|no)_nets", key):
+                if with_explicit_nets:
+                    raise ValueError(
+                        f"Cannot specify a nets restriction '{cmd_param}' together with "
+                        f"explicit net suffixes {param_dict['nets']}"
+                    )
                 nets_str = (
                     "%s %s\n" % (key.replace("_nets", ""), value) if value else ""
                 )
@@ -147,6 +153,7 @@ def params_from_cmd(config: Params) -> None:
                 )
             value = value.replace(",", " ")
             param_dict[key] = value
+            with_explicit_nets = True
         else:
             # NOTE: comma on the command line is space in a config file
             value = value.replace(",", " ")
